@@ -25,6 +25,7 @@ import (
 	"context"
 	"fmt"
 	"os"
+	"runtime"
 	"strconv"
 	"strings"
 	"sync"
@@ -635,6 +636,9 @@ func c11ConnCases(e *Emitter, rng *Rng, thorough bool) {
 		}
 		items := c11ConnRandom(rng, maxLen, maxDepth)
 		run(queues[i%3], items, "conn-rand")
+	}
+	if os.Getenv("HXDBG") != "" {
+		fmt.Fprintf(os.Stderr, "c11conn: %d scripts, %d goroutines alive afterwards\n", count, runtime.NumGoroutine())
 	}
 	e.Extra["conn_scripts"] = fmt.Sprintf("%d scripts (%d fixed x 3 queue sizes, %d random), watchdog expiries %d, %.2fs", count, len(c11ConnFixed), nrand, hangs, time.Since(t0).Seconds())
 }
